@@ -28,7 +28,14 @@ Derived(ev) == IF "calc" \in DOMAIN ev THEN CalcDiff(ev.calc, ev.bytes, 32) ELSE
 OwnerT(f) == IF f \in {"outcome", "alloc", "ops"} THEN "C01"
              ELSE IF f \in {"csome", "chdg", "cgs", "cvrate"} THEN "C07" ELSE Owner(f)
 
+\* C04: address text round trip over all 2^24 addresses (counted by the recorder) and sample texts
+IcaoDiff(ev) == (IF ev.failures = 0 /\ ev.checked = 16777216 THEN {} ELSE {"icao_roundtrip"})
+                \cup (IF \A i \in 1..Len(ev.samples) : ev.samples[i].text = HexN(ev.samples[i].a, 6) THEN {} ELSE {"icao_text"})
+
 Judge(i) ==
+  IF Rec[i].ev = "icao"
+  THEN LET d == IcaoDiff(Rec[i]) IN IF d = {} THEN TRUE ELSE PrintT(<<"VERDICT", i, "icao", {<<"C04", f>> : f \in d}>>)
+  ELSE
   LET ev == Rec[i]
       d  == Diff(ev.out, ev.bytes) \cup Totality(ev) \cup Derived(ev)
   IN IF d = {} THEN TRUE
